@@ -461,6 +461,11 @@ fn impl_conversion_fxn(source_value: Value, target_kind: Value) -> MResult<Box<d
     }
     #[cfg(all(feature = "rational", feature = "f64"))]
     (Value::R64(r), Value::Kind(ValueKind::F64)) => {return Ok(Box::new(ConvertScalarToScalar{arg: r.clone(),out: Ref::new(f64::default()),}));}
+    // Annotating a rational / complex value with its own kind is the identity conversion.
+    #[cfg(feature = "rational")]
+    (Value::R64(r), Value::Kind(ValueKind::R64)) => {return Ok(Box::new(ConvertScalarToScalar{arg: r.clone(),out: Ref::new(R64::default()),}));}
+    #[cfg(feature = "complex")]
+    (Value::C64(c), Value::Kind(ValueKind::C64)) => {return Ok(Box::new(ConvertScalarToScalar{arg: c.clone(),out: Ref::new(C64::default()),}));}
     #[cfg(all(feature = "matrix", feature = "table", feature = "string"))]
     (Value::MatrixString(mat), Value::Kind(ValueKind::Table(tbl, sze))) => {
       let in_shape = mat.shape();
